@@ -287,10 +287,12 @@ def run_parent(args) -> int:
 
     rc = 0
     lines = []
-    for key, vs in known_seen.items():
-        f = open_keys[key]
+    for key, f in open_keys.items():
+        # one line per listed finding, whether or not this run happened to hit it
+        vs = known_seen.get(key, [])
         total = merged["counters"].get(f"violations_mech_{key}", len(vs))
-        lines.append(f"KNOWN-FINDING: property={pid} {key}: {f.get('what', '')} (observed {total}x, e.g. {' '.join(str(vs[0].get('detail', '')).split())[:160]})")
+        eg = f", e.g. {' '.join(str(vs[0].get('detail', '')).split())[:160]}" if vs else ""
+        lines.append(f"KNOWN-FINDING: property={pid} {key}: {f.get('what', '')} (observed {total}x in this run{eg})")
     if unlisted:
         replay_dir = out_dir("replays")
         seen_kinds = {}
